@@ -643,12 +643,13 @@ func c15Failures(r *Run) {
 		}
 		bound := c15Bound(I) + extra
 		key := fmt.Sprintf("kind=%s k=%d", c.kind, c.k)
-		hits0 := o.Hits(s.path)
 		sawOld, ok := false, false
 		var d time.Duration
 		for time.Since(t0) < time.Duration(bound+4000)*time.Millisecond {
-			served := o.Hits(s.path) - hits0
 			vd, _ := in.v.Verify(c15Chains(s.victim, ca))
+			// how many scripted answers had been handed out when the verdict was given: read after the verdict from the
+			// origin's own time-stamped record (a counter read before the handshake can be stale by one refresh run)
+			served := len(o.ScriptServed(s.path))
 			if vd == "reject" {
 				ok, d = true, time.Since(t0)
 				if served <= c.k {
@@ -774,10 +775,9 @@ func c15FirstLoadFailures(r *Run) {
 		// already see the (k+1)-th, acceptable answer in force and rejects rightly. Only a verdict other than accept
 		// that was given before the acceptable answer had even been requested means a failing answer decided.
 		vd0, _ := in.v.Verify(c15Chains(s.listed, ca))
-		tv0 := time.Now()
-		if at := o.Log.times(s.path); vd0 != "accept" && (len(at) <= c.k || at[c.k].After(tv0)) {
+		if n0 := len(o.ScriptServed(s.path)); vd0 != "accept" && n0 <= c.k {
 			r.Violate("C15 failing-answer-came-into-force kind="+c.kind,
-				fmt.Sprintf("%s: the first handshake (lenient mode) was not accepted: %s, although only %d answers (all bad) had been requested by then", key, vd0, len(at)), nil)
+				fmt.Sprintf("%s: the first handshake (lenient mode) was not accepted: %s, although only %d answers (all bad) had been served by then", key, vd0, n0), nil)
 		} else if vd0 != "accept" {
 			r.Count("first-load-history:first-handshake-saw-good-list")
 		}
@@ -791,8 +791,12 @@ func c15FirstLoadFailures(r *Run) {
 			if c.fetch == "fetch_actively" {
 				pause = 40 * time.Millisecond
 			}
-			if vd, _ := in.v.Verify(c15Chains(s.listed, ca)); vd == "reject" && o.Hits(s.path) > c.k {
+			vd, _ := in.v.Verify(c15Chains(s.listed, ca))
+			if n := len(o.ScriptServed(s.path)); vd == "reject" && n > c.k {
 				ok, d = true, time.Since(t0)
+				break
+			} else if vd == "reject" {
+				r.Violate("C15 failing-answer-came-into-force kind="+c.kind, fmt.Sprintf("%s: the certificate is rejected although only %d answers (all bad) had been served", key, n), nil)
 				break
 			}
 			time.Sleep(pause)
